@@ -18,7 +18,7 @@ use std::sync::{Arc, Mutex};
 use std::time::{Duration, Instant};
 
 pub const LEVEL: &str = "exploration";
-pub const RULE: &str = "case = scenario on a real connected client (Connector::connect over a socket pair and TLS) whose receive thread is the binary's launch_rdp_thread: 1..12 fast-path bitmap PDUs tagged with serial numbers; a packing of PDUs into TLS records (one per record, several per record, one PDU split over 2-3 records) and of records into socket writes (one write per record, all coalesced, 1..n-byte pieces) with seeded pauses (0 / 100 us / 5 ms / 40 ms / 250 ms; the long ones only between few pieces); an end mode (disconnect-provider ultimatum, TLS close_notify then close, abrupt close, undecodable PDU then close, connection reset (RST, on the loopback-TCP transport), none) placed before any PDU, between PDUs or inside a PDU; 0..2 concurrent writer threads doing lock + try_write. Oracle: with the server silent and open every PDU already sent arrives on the bitmap channel in serial order within 30 s (a miss is confirmed by a 'poke' PDU: if the missing events then arrive the thread was waiting for further server traffic); after the end event the thread's JoinHandle is finished within 30 s and the shared client is released (a live thread is classified as spinning or blocked by process CPU time); everything sent before the end was forwarded in order. A scenario may contain a reactivation (deactivate-all + demand-active in one TLS record, one record each, or behind a bitmap PDU): the client's finalization must arrive with the server silent, and bitmaps flow again afterwards; one matrix scenario pushes 66 000 bitmaps through the session first. Scenarios may start with 1-2 bitmap PDUs in the TLS record of the font-map (decrypted before the receive thread exists: they must be delivered with the server silent) and may use PDUs larger than one TLS record (64x64 raw rectangles), also cut in half by the end event. A scenario may send 1-5 bitmap PDUs IMMEDIATELY before the end event (in their own TLS records, or in the record that carries the ultimatum / undecodable PDU), so that the end reaches the socket while they are unread: they were received before the end and must all be forwarded, in order, before the thread stops (not with a connection reset, which may discard queued data). The matrix section covers every end mode at every protocol point and every packing (one / several / split PDUs per record) on a plain-TLS and on a CredSSP (PROTOCOL_HYBRID) session, plus scenarios that start with 6 s (thorough: 2, 6, 11, 31, 61 s) of complete server silence; one generated scenario in three runs on a CredSSP session. Scenarios run one at a time. Non-trivial = packing other than one-PDU-per-record-per-write, or an end mode other than none; distinct by hash of the scenario.";
+pub const RULE: &str = "case = scenario on a real connected client (Connector::connect over a socket pair and TLS) whose receive thread is the binary's launch_rdp_thread: 1..12 fast-path bitmap PDUs tagged with serial numbers; a packing of PDUs into TLS records (one per record, several per record, one PDU split over 2-3 records) and of records into socket writes (one write per record, all coalesced, 1..n-byte pieces) with seeded pauses (0 / 100 us / 5 ms / 40 ms / 250 ms; the long ones only between few pieces); an end mode (disconnect-provider ultimatum followed by the server's close, the ultimatum alone with the connection left open, TLS close_notify then close, abrupt close, undecodable PDU then close, connection reset (RST, on the loopback-TCP transport), none) placed before any PDU, between PDUs or inside a PDU; 0..2 concurrent writer threads doing lock + try_write. Oracle: with the server silent and open every PDU already sent arrives on the bitmap channel in serial order within 30 s (a miss is confirmed by a 'poke' PDU: if the missing events then arrive the thread was waiting for further server traffic); after the end event the thread's JoinHandle is finished within 30 s and the shared client is released (a live thread is classified as spinning or blocked by process CPU time); everything sent before the end was forwarded in order. A scenario may contain a reactivation (deactivate-all + demand-active in one TLS record, one record each, or behind a bitmap PDU): the client's finalization must arrive with the server silent, and bitmaps flow again afterwards; one matrix scenario pushes 66 000 bitmaps through the session first. Scenarios may start with 1-2 bitmap PDUs in the TLS record of the font-map (decrypted before the receive thread exists: they must be delivered with the server silent) and may use PDUs larger than one TLS record (64x64 raw rectangles), also cut in half by the end event. A scenario may send 1-5 bitmap PDUs IMMEDIATELY before the end event (in their own TLS records, or in the record that carries the ultimatum / undecodable PDU), so that the end reaches the socket while they are unread: they were received before the end and must all be forwarded, in order, before the thread stops (not with a connection reset, which may discard queued data). The matrix section covers every end mode at every protocol point and every packing (one / several / split PDUs per record) on a plain-TLS and on a CredSSP (PROTOCOL_HYBRID) session, plus scenarios that start with 6 s (thorough: 2, 6, 11, 31, 61 s) of complete server silence; one generated scenario in three runs on a CredSSP session. Scenarios run one at a time. Non-trivial = packing other than one-PDU-per-record-per-write, or an end mode other than none; distinct by hash of the scenario.";
 
 // generous: a loaded machine must not turn into a violation; waiting costs nothing when things work (the collectors return
 // as soon as everything has arrived), only failing scenarios take this long
@@ -53,6 +53,9 @@ pub enum EndMode {
     UndecodableThenClose,
     /// TCP only: the server's socket is closed with SO_LINGER 0, the client sees a connection reset (RST)
     Reset,
+    /// the server sends its disconnect-provider ultimatum and leaves the connection open (it waits for the client to close): the
+    /// ultimatum alone ends the session
+    UltimatumNoClose,
 }
 
 #[derive(Serialize, Deserialize, Hash, Clone, Debug)]
@@ -293,6 +296,14 @@ fn setup(nla: bool, tcp: bool, early: u8) -> Result<Session, String> {
         }
     }
     let client = helper.join().map_err(|_| "client helper thread panicked".to_string())??;
+    // the read / write timeouts only protected the setup: from here on the client's socket blocks like an application's does
+    // (with a timeout left on it, a receive thread that blocks for ever in a read would be "rescued" by a timeout error)
+    unsafe {
+        let tv = libc::timeval { tv_sec: 0, tv_usec: 0 };
+        for opt in [libc::SO_RCVTIMEO, libc::SO_SNDTIMEO] {
+            libc::setsockopt(fd, libc::SOL_SOCKET, opt, &tv as *const libc::timeval as *const libc::c_void, std::mem::size_of::<libc::timeval>() as libc::socklen_t);
+        }
+    }
     let client = Arc::new(Mutex::new(client));
     let sync = Arc::new(AtomicBool::new(true));
     let (tx, rx) = channel();
@@ -386,6 +397,15 @@ fn packing_name(c: &Case) -> String {
 }
 
 pub fn run(c: &Case) -> Outcome {
+    // an ultimatum that follows half a PDU on a connection that stays open is not a stream a server can send (the client would
+    // rightly wait for the rest of the PDU): with that end mode the end is always at a PDU boundary
+    let normalised;
+    let c = if c.end == EndMode::UltimatumNoClose && c.end_inside {
+        normalised = Case { end_inside: false, ..c.clone() };
+        &normalised
+    } else {
+        c
+    };
     let dbg = std::env::var_os("C20_DEBUG").is_some();
     let t00 = Instant::now();
     macro_rules! d { ($($a:tt)*) => { if dbg { eprintln!("[{:?}] {}", t00.elapsed(), format!($($a)*)); } } }
@@ -400,6 +420,7 @@ pub fn run(c: &Case) -> Outcome {
     out.label(match c.end {
         EndMode::None => "end:none",
         EndMode::DisconnectUltimatum => "end:ultimatum",
+        EndMode::UltimatumNoClose => "end:ultimatum-connection-left-open",
         EndMode::CloseNotify => "end:close-notify",
         EndMode::AbruptClose => "end:abrupt-close",
         EndMode::UndecodableThenClose => "end:undecodable",
@@ -722,6 +743,7 @@ pub fn run(c: &Case) -> Outcome {
                 let _ = s.tls.get_mut().sock.shutdown(std::net::Shutdown::Both);
                 r
             }
+            EndMode::UltimatumNoClose => s.tls.write_all(&with_head(&wire::disconnect_provider_ultimatum().bytes)),
             EndMode::CloseNotify => {
                 if !head.is_empty() {
                     let _ = s.tls.write_all(&head);
@@ -835,7 +857,7 @@ pub fn decode(s: &mut Src) -> Case {
         1 => SocketPacking::Pieces(s.pick(&[1u16, 3, 7, 29, 64])),
         _ => SocketPacking::PerRecord,
     };
-    let end = s.pick(&[EndMode::None, EndMode::DisconnectUltimatum, EndMode::CloseNotify, EndMode::AbruptClose, EndMode::UndecodableThenClose, EndMode::DisconnectUltimatum, EndMode::Reset]);
+    let end = s.pick(&[EndMode::None, EndMode::DisconnectUltimatum, EndMode::CloseNotify, EndMode::AbruptClose, EndMode::UndecodableThenClose, EndMode::UltimatumNoClose, EndMode::Reset]);
     let pdus = 1 + s.below(12) as u8;
     Case { pdus, records, socket, pause: s.below(5) as u8, end, end_after: s.below(pdus as usize + 1) as u8, end_inside: s.chance(64), writers: s.below(3) as u8, end_delay: s.below(3) as u8, nla, silence_s, tcp, early, big, bulk: 0, reactivate, tail, tail_packed }
 }
@@ -912,6 +934,12 @@ fn matrix(thorough: bool) -> Vec<Case> {
                 let pdus = if matches!(socket, SocketPacking::Pieces(3)) { 1 } else { 3 };
                 v.push(Case { pdus, records, socket, pause, end: EndMode::DisconnectUltimatum, end_after: pdus, end_inside: false, writers: 0, end_delay: 0, nla: false, silence_s: 0, tcp, early: 0, big: false, bulk: 0, reactivate: 0, tail: 0, tail_packed: false });
             }
+        }
+    }
+    // the ultimatum alone, the server leaving the connection open, on both transports and both kinds of session
+    for (tcp, nla, tail) in [(false, false, 0u8), (true, false, 0), (false, true, 0), (false, false, 2)] {
+        for end_after in [0u8, 2] {
+            v.push(Case { pdus: 2, records: RecordPacking::OnePerRecord, socket: SocketPacking::PerRecord, pause: 0, end: EndMode::UltimatumNoClose, end_after, end_inside: false, writers: (end_after / 2), end_delay: 0, nla, silence_s: 0, tcp, early: 0, big: false, bulk: 0, reactivate: 0, tail, tail_packed: tail > 0 });
         }
     }
     // a long session: more bitmaps than a 16-bit counter holds, then the usual end
